@@ -1,5 +1,5 @@
 import itertools, os, re, sys
-from vf import Check, Stream, log, first_diff
+from vf import Check, Stream, log, first_diff, run_exe_on_cases, BUILD
 
 NV = 3
 KINDS = ['array', 'list', 'map', 'multimap', 'hashmap', 'hashset', 'poollist', 'poolmap']
@@ -488,9 +488,9 @@ def large_cases(thorough):
     """round 5: element counts just below / at / above 2^8 (a count or index kept in a narrower integer type
     shows here): Array filled through append(buffer, 60) to 255 / 256 / 257 elements, then own elements
     appended, removal at the last indices, resize across the boundary, append(&a[i], n) of the whole array,
-    copy / assignment / self-append; List of 257 elements sorted (pseudo-random payloads), copied, own element
-    re-inserted; the node kinds filled to 257 items, copied, assigned, last items removed, cleared.  (2^15 /
-    2^16 elements are out of reach of the extracted model, whose heap is an association list.)"""
+    copy / assignment / self-append; PoolMap (thorough: also HashSet, PoolList) filled to 257 items, copied or
+    swapped, last items removed, cleared.  (2^15 / 2^16 elements are out of reach of the extracted model, whose
+    heap is an association list.)"""
     cases = []
     def arr(n, x=0):
         out = ['new %d array' % x]
@@ -501,11 +501,10 @@ def large_cases(thorough):
                              'apprange 0 0 0 255', 'rempop 0 b', 'find 0 v0.508'])
     cases.append(arr(256) + ['copy 1 0', 'asg 1 1', 'addall 1 b 0', 'remat 1 256', 'apprange 1 1 255 256', 'swap 0 1', 'clear 1', 'asg 1 0', 'del 0'])
     cases.append(arr(257) + ['reserve 0 300', 'apprange 0 0 1 256', 'rempop 0 b', 'resize 0 256 v0.0', 'resize 0 258 v0.255', 'find 0 v0.257', 'addall 0 b 0'])
-    vals = [(37 * i + 11) % 101 for i in range(257)]
-    cases.append(['new 0 list'] + ['ins 0 b - %d' % z for z in vals] + ['sort 0', 'ins 0 f - v0.256', 'copy 1 0', 'remat 1 256', 'rempop 0 b', 'sort 1', 'addall 1 b 0'])
     if not thorough:
-        cases = [cases[0], cases[2]]      # the extracted model (unary instance ids) needs 5-60 s per case of this size
-    kinds = ['map', 'hashmap', 'poolmap', 'multimap', 'hashset', 'poollist'] if thorough else ['poolmap']
+        cases = [cases[0], cases[2]]      # the extracted model (unary instance ids) needs 5-120 s per case of this size
+    # Map / MultiMap / HashMap with 257 items and List::sort on 257 elements cost the model 1-30 minutes: not run
+    kinds = ['poolmap', 'hashset', 'poollist'] if thorough else ['poolmap']
     for kind in kinds:
         ka = lambda z: str(z) if kind in HAS_KEY else '-'
         va = lambda z: str(z % 10) if kind in NEED_VAL else '-'
@@ -753,8 +752,9 @@ class C04(Check):
         'match; tree / bucket navigation not modelled); the returned iterator is compared as the index of the element found. '
         'PoolList::append(a1..an): driven with arguments of one POD type (an integer or a pointer to a stored element) that the element '
         'type\'s n-ary constructors read in order; by-value class-type arguments of arity >= 2 (copies made by the caller in an order the '
-        'language leaves open) are not driven. List::sort is driven on lists of up to 16 (thorough: 33) elements, and once on 257. Sizes: '
-        'the stream `large` reaches 255 / 256 / 257 elements (a count or index narrowed to 8 bits shows: mutants/C04/30); 2^15 / 2^16 '
+        'language leaves open) are not driven. List::sort is driven on lists of up to 16 (thorough: 33) elements. Sizes: '
+        'the stream `large` reaches 255 / 256 / 257 elements for Array, PoolMap (thorough: HashSet, PoolList) only (a count or index narrowed '
+        'to 8 bits shows there: mutants/C04/30; List / Map / MultiMap / HashMap stay below 50 elements); 2^15 / 2^16 '
         'elements are NOT reached - the extracted model keeps instance ids as unary numbers and its heap as an association list (a case '
         'with 1024 elements needs 40 s, the cost grows cubically), so a slip at 16 or 32 bits is invisible to this check (C03 drives '
         'Array / List sizes at those boundaries on plain ints). Array::resize(n) with the default argument T() is not called here (C03 '
@@ -789,7 +789,7 @@ class C04(Check):
         'keys behind 0 / 1 / 3 smaller and in front of 0 / 2 greater keys, built in three insertion orders = three tree shapes, every '
         'hint that meets the tie case, literal and own-element arguments, landing offsets 0..7 observed), a large stream (Array of 255 / '
         '257 (thorough: also 256) elements: own elements appended, removal at the last indices, resize and append(&a[i], n) across 2^8; '
-        'PoolMap (thorough: every node kind, List::sort) with 257 items); exhaustive histories of depth 3 '
+        'PoolMap (thorough: also HashSet, PoolList) with 257 items); exhaustive histories of depth 3 '
         '(thorough: depth 4) for every kind over a 13-21 op alphabet (table kinds: the two keys collide; the third-round ops are in the '
         'alphabets). A case is non-trivial when the '
         'implementation performed at least 4 operations and constructed at least 3 element instances; distinct = distinct op text.')
@@ -884,11 +884,13 @@ class C04(Check):
 
     def run_model(self, cases, tag='model'):
         cases = self.with_ties(cases)
-        if tag.endswith('_large') and len(cases) > 1:
-            # few, expensive cases: one process per case, 4 at a time
+        if tag.endswith('_large'):
+            # few, expensive cases (minutes each on a loaded machine): one process per case, 4 at a time, long timeout
             from concurrent.futures import ThreadPoolExecutor
+            one = lambda ic: run_exe_on_cases(self.exes['model'], [ic[1]], os.path.join(BUILD, self.id, 'run'),
+                                              '%s_%d' % (tag, ic[0]), args=self.model_args, timeout=1500)[0]
             with ThreadPoolExecutor(max_workers=4) as ex:
-                parts = list(ex.map(lambda ic: Check.run_model(self, [ic[1]], '%s_%d' % (tag, ic[0])), enumerate(cases)))
+                parts = list(ex.map(one, enumerate(cases)))
             return [p[0] for p in parts]
         return Check.run_model(self, cases, tag)
 
@@ -932,7 +934,7 @@ class C04(Check):
         out.append(Stream('sort', sort_cases(thorough), note='List::sort on all short payload sequences and on sorted / reversed / equal lists, then the list is used on'))
         out.append(Stream('hint', hint_cases(thorough), note='Map / MultiMap insert(position, k, v): every hint x every key position, own elements as arguments; Map::insert(Map)'))
         out.append(Stream('hint-tie', tie_cases(thorough), note='MultiMap hinted insert whose landing place depends on the tree shape: runs of equal keys, every tree shape / hint that meets the case'))
-        out.append(Stream('large', large_cases(thorough), note='255 / 256 / 257 elements: Array growth, removal and append(&a[i], n) across 2^8; List::sort and the node kinds with 257 items'))
+        out.append(Stream('large', large_cases(thorough), note='255 / 256 / 257 elements: Array growth, removal and append(&a[i], n) across 2^8; PoolMap (thorough: HashSet, PoolList) with 257 items'))
         out.append(Stream('emplace', emplace_cases(), note='PoolList::append with 0..8 arguments, integers or references to own elements'))
         out.append(Stream('capacity', capacity_cases(thorough), note='(capacity) constructors of Array / HashMap / HashSet / PoolMap'))
         out.append(Stream('wrappers', wrapper_cases(thorough), note='prepend / append(key[, value]) of List / HashMap / HashSet / PoolMap with own keys and values as arguments'))
